@@ -65,6 +65,16 @@ impl Distribution<()> for Probe {
     }
 }
 
+/// A bulky element (4 KiB): collections of a modest number of them are large in bytes.
+#[derive(Clone)]
+struct Slab([u32; 1024]);
+
+impl Distribution<Slab> for Probe {
+    fn sample<R: Rng + ?Sized>(&self, rng: &mut R) -> Slab {
+        Slab([self.next(rng); 1024])
+    }
+}
+
 impl Distribution<bool> for Probe {
     fn sample<R: Rng + ?Sized>(&self, rng: &mut R) -> bool {
         self.next(rng) & 1 == 1
@@ -95,6 +105,8 @@ enum GenKind {
     /// `Bitstring::random(size)` / `Bitstring::random_with_probability(size, p)`: the direct constructors (no
     /// element generator to observe: only "exactly the configured size" is decided here, the law is C12's)
     BitsRandom,
+    /// `Vec<Slab>`: 4 KiB elements (more than 2^28 bytes for 70 000 of them)
+    VecSlab,
 }
 
 #[derive(Serialize, Deserialize, Clone, Debug)]
@@ -556,6 +568,16 @@ fn exec_gen(kind: GenKind, size: usize, inner: usize, by_ref: bool, spec: &RngSp
                 };
                 (vec![b.bits.len()], Vec::new(), exact)
             }
+            GenKind::VecSlab => {
+                let v: Vec<Slab> = if by_ref {
+                    probe.to_collection_generator(size).sample(&mut rng)
+                } else {
+                    Generator::new(&probe, size).sample(&mut rng)
+                };
+                obs.hit("probe.collection-of-more-than-2^28-bytes");
+                let torn = v.iter().position(|s| s.0.iter().any(|x| *x != s.0[0])).map(|i| format!("element {i} is not one value of the element generator"));
+                (vec![v.len()], v.iter().map(|s| s.0[0]).collect(), torn)
+            }
             GenKind::VecUnit => {
                 probe.limit.set(size + 16);
                 let v: Vec<()> = if by_ref {
@@ -647,7 +669,7 @@ fn exec_gen(kind: GenKind, size: usize, inner: usize, by_ref: bool, spec: &RngSp
     }
     let expected_total: usize = if nested { size * inner } else if kind == GenKind::BitsRandom { 0 } else { size };
     let as_seen: Vec<u32> = match kind {
-        GenKind::VecU32 | GenKind::Nested | GenKind::VecUnit | GenKind::BitsRandom => log.clone(),
+        GenKind::VecU32 | GenKind::Nested | GenKind::VecUnit | GenKind::BitsRandom | GenKind::VecSlab => log.clone(),
         GenKind::Bits | GenKind::Individual | GenKind::Population => log.iter().map(|x| x & 1).collect(),
         GenKind::Plushy => log.iter().map(|x| if x % 5 == 4 { u32::MAX } else { *x }).collect(),
     };
@@ -729,7 +751,7 @@ impl Check for C18 {
 
     fn runs(&self, tier: Tier) -> u64 {
         dist_cells().len() as u64
-            + 12
+            + 14
             + match tier {
                 Tier::Quick => 3_000_000,
                 Tier::Thorough => 300_000_000,
@@ -751,6 +773,9 @@ impl Check for C18 {
         let big = run as usize - cells.len();
         if (3..6).contains(&big) {
             return Sc::Zst { plus: [0usize, 1, 12345][big - 3], rng: RngSpec::swarm(g) };
+        }
+        if (12..14).contains(&big) {
+            return Sc::Gen { kind: GenKind::VecSlab, size: [70_000usize, 65_537][big - 12], inner: 0, by_ref: big == 13, rng: RngSpec::seeded(g.next_u64()) };
         }
         if big < 3 || (6..12).contains(&big) {
             let tri = [0u8, 0, 1, 2][big / 3];
